@@ -15,6 +15,7 @@ mod c24;
 mod c35;
 mod c36;
 mod c27;
+mod c26;
 mod gens;
 mod lang;
 mod vrlrun;
@@ -49,6 +50,7 @@ const EXECS: &[Exec] = &[
     c35::exec,
     c36::exec,
     c27::exec,
+    c26::exec,
 ];
 
 /// Run one case (`op` + inputs) on the implementation: the first module that recognises the op answers.
@@ -81,6 +83,7 @@ fn generate(prop: &str, sink: &mut sink::Sink, rng: &mut rng::Rng, n: u64) -> bo
         "C35" => c35::generate(sink, rng, n),
         "C36" => c36::generate(sink, rng, n),
         "C27" => c27::generate(sink, rng, n),
+        "C26" => c26::generate(sink, rng, n),
         _ => return false,
     }
     true
